@@ -194,8 +194,23 @@ func ruleMutants(s *chain.Sim, p chain.BlockPlan, rng *rand.Rand) []mutant {
 				})
 			}
 		}
-		if len(t.FileContractRevisions) > 0 && !revisedBefore(i, t.FileContractRevisions[0].Parent.ID) {
+		if len(t.FileContractRevisions) > 0 {
+			// the contract as it stands when this revision is judged: the latest earlier revision in the block, else the parent
 			cur := t.FileContractRevisions[0].Parent.V2FileContract
+			inblock := revisedBefore(i, t.FileContractRevisions[0].Parent.ID)
+			if inblock {
+				for k := 0; k < i; k++ {
+					for _, r := range b.V2.Transactions[k].FileContractRevisions {
+						if r.Parent.ID == t.FileContractRevisions[0].Parent.ID {
+							cur = r.Revision
+						}
+					}
+				}
+			}
+			tag := ""
+			if inblock {
+				tag = ":after-inblock-revision"
+			}
 			rvm := func(kind string, f func(rev *types.V2FileContract) bool) {
 				add(kind, func(mb *types.Block, _ *consensus.V1BlockSupplement) bool {
 					// later revisions of the same contract in this block were signed against this one: drop them
@@ -209,7 +224,7 @@ func ruleMutants(s *chain.Sim, p chain.BlockPlan, rng *rand.Rand) []mutant {
 				})
 			}
 			if cur.Capacity > 0 {
-				rvm("v2-rev:capacity-decreased", func(rev *types.V2FileContract) bool {
+				rvm("v2-rev:capacity-decreased"+tag, func(rev *types.V2FileContract) bool {
 					rev.Capacity = cur.Capacity - 1
 					if rev.Filesize > rev.Capacity {
 						rev.Filesize = rev.Capacity
@@ -217,24 +232,24 @@ func ruleMutants(s *chain.Sim, p chain.BlockPlan, rng *rand.Rand) []mutant {
 					return true
 				})
 			}
-			rvm("v2-rev:filesize-exceeds-capacity", func(rev *types.V2FileContract) bool {
+			rvm("v2-rev:filesize-exceeds-capacity"+tag, func(rev *types.V2FileContract) bool {
 				rev.Filesize = rev.Capacity + 1
 				return true
 			})
-			rvm("v2-rev:revision-number-not-increased", func(rev *types.V2FileContract) bool {
+			rvm("v2-rev:revision-number-not-increased"+tag, func(rev *types.V2FileContract) bool {
 				rev.RevisionNumber = cur.RevisionNumber
 				return true
 			})
-			rvm("v2-rev:output-sum-changed", func(rev *types.V2FileContract) bool {
+			rvm("v2-rev:output-sum-changed"+tag, func(rev *types.V2FileContract) bool {
 				rev.RenterOutput.Value = rev.RenterOutput.Value.Add(one)
 				return true
 			})
-			rvm("v2-rev:missed-host-raised", func(rev *types.V2FileContract) bool {
+			rvm("v2-rev:missed-host-raised"+tag, func(rev *types.V2FileContract) bool {
 				rev.MissedHostValue = cur.MissedHostValue.Add(one)
 				return rev.MissedHostValue.Cmp(rev.HostOutput.Value) <= 0
 			})
 			if child >= s.Net.HardforkV2.EphemeralOutputHeight {
-				rvm("v2-rev:missed-host-exceeds-host", func(rev *types.V2FileContract) bool {
+				rvm("v2-rev:missed-host-exceeds-host"+tag, func(rev *types.V2FileContract) bool {
 					if rev.MissedHostValue.IsZero() || rev.MissedHostValue.Cmp(cur.MissedHostValue) > 0 {
 						return false
 					}
@@ -245,17 +260,17 @@ func ruleMutants(s *chain.Sim, p chain.BlockPlan, rng *rand.Rand) []mutant {
 					return true
 				})
 			}
-			rvm("v2-rev:collateral-changed", func(rev *types.V2FileContract) bool {
+			rvm("v2-rev:collateral-changed"+tag, func(rev *types.V2FileContract) bool {
 				rev.TotalCollateral = cur.TotalCollateral.Add(one)
 				return true
 			})
 			if child >= 1 {
-				rvm("v2-rev:proof-height-passed", func(rev *types.V2FileContract) bool {
+				rvm("v2-rev:proof-height-passed"+tag, func(rev *types.V2FileContract) bool {
 					rev.ProofHeight = child - 1
 					return rev.ExpirationHeight > rev.ProofHeight
 				})
 			}
-			rvm("v2-rev:expiration-not-after-proof", func(rev *types.V2FileContract) bool {
+			rvm("v2-rev:expiration-not-after-proof"+tag, func(rev *types.V2FileContract) bool {
 				rev.ExpirationHeight = rev.ProofHeight
 				return true
 			})
